@@ -3,8 +3,10 @@
 //!        jv --replay FILE [--root DIR]
 
 #![allow(clippy::type_complexity)]
+#![allow(dead_code)]
 
 mod engine;
+mod fifo;
 mod gen;
 mod p01;
 mod p02;
@@ -16,6 +18,8 @@ mod p10;
 mod p14;
 mod p16;
 mod p17;
+mod p18;
+mod p20;
 mod pipe;
 mod rows;
 mod univ;
@@ -39,6 +43,8 @@ fn modules() -> Vec<Module> {
         ("C14", p14::run_all, p14::checks),
         ("C16", p16::run_all, p16::checks),
         ("C17", p17::run_all, p17::checks),
+        ("C18", p18::run_all, p18::checks),
+        ("C20", p20::run_all, p20::checks),
     ]
 }
 
